@@ -252,20 +252,32 @@ theorem poll_coreJ (g : Join) (b : Eng Fix) (w : Nat) (hW : WfJ g) (hS : FutStep
   by_cases hc0 : g.roleCount = 0
   · obtain ⟨a, ha1, ha2⟩ := hBspec (Or.inl hc0)
     unroles
-    simp only [hc0, bne_self_eq_false, Bool.false_eq_true, ↓reduceIte]
+    first
+      | simp only [hc0, bne_self_eq_false, Bool.false_eq_true, ↓reduceIte]
+      | simp [hc0]
     exact ⟨a, ha1, ha2⟩
   · cases ha : (TieVec.abs r1 ((absJ g b).w.emit (.pollBegin w))).anyReady
     · -- nothing is ready: the early return
       have hidle := poll_idleJ (absJ g b) w hdead hc0 (by rw [← hw1]; exact ha)
       unroles
-      simp only [bne_iff_ne, ne_eq, hc0, not_false_eq_true, ↓reduceIte, Bool.not_false]
+      have hpos : 0 < g.roleCount := Nat.pos_of_ne_zero hc0
+      have hpos1 : 1 ≤ g.roleCount := hpos
+      unroles
+      first
+        | simp only [bne_iff_ne, ne_eq, hc0, not_false_eq_true, ↓reduceIte, Bool.not_false]
+        | simp [hc0, hpos, hpos1]
       refine ⟨_, rfl, { w := ((absJ g b).w.emit (.pollBegin w)).setWaker w, s := (absJ g b).s }, hidle, hw1.symm,
         fun _ => ?_, fun h => absurd rfl h⟩
       exact ⟨hw1.symm, rfl, rfl, rfl, rfl, rfl, rfl, hd, rfl, hs2, hnw, hsl, hic, hpc, hrs, hparent,
         fun c i hm => hH c i hm, hS⟩
     · obtain ⟨a, ha1, ha2⟩ := hBspec (Or.inr (by rw [← hw1]; exact ha))
       unroles
-      simp only [bne_iff_ne, ne_eq, hc0, not_false_eq_true, ↓reduceIte, Bool.not_true, Bool.false_eq_true]
+      have hpos : 0 < g.roleCount := Nat.pos_of_ne_zero hc0
+      have hpos1 : 1 ≤ g.roleCount := hpos
+      unroles
+      first
+        | simp only [bne_iff_ne, ne_eq, hc0, not_false_eq_true, ↓reduceIte, Bool.not_true, Bool.false_eq_true]
+        | simp [hc0, hpos, hpos1]
       exact ⟨a, ha1, ha2⟩
 
 /-- the refinement, together with the facts about the environment that the next poll (or the drop) needs again -/
